@@ -27,13 +27,20 @@ MANIFEST = {
             "(async_fires_exactly_the_due, async_fired_were_registered); its return value is not later than the earliest deadline "
             "(async_wait_le_earliest_deadline); at most one entry per (session, token) (async_one_entry_per_session_token); a "
             "retransmission of a deferred request registers nothing and gets an Empty ACK only "
-            "(async_retransmission_no_second_entry, async_retransmission_acked_only). Tied by differential runs (op asq) of the "
+            "(async_retransmission_no_second_entry, async_retransmission_acked_only); every entry holds exactly one session "
+            "reference, session->ref = number of entries of the session, no entry names a freed session, the idle reaper never "
+            "reclaims a session with a pending entry (async_refs_balanced, async_no_entry_of_freed_session, "
+            "async_pending_session_not_reclaimed: inductive invariant over every event sequence); the second pass under an "
+            "unchanged table calls the same handler with the same request view as the first (async_second_pass_same_handler); "
+            "after coap_delete_resource in between no handler of a deleted resource runs and the error response is a separate "
+            "response, never an ACK (async_deleted_resource_handler_never_runs, async_second_pass_error_is_separate_response). "
+            "Tied by differential runs (op asq, incl. coap_delete_resource events) of the "
             "real coap_register_async / coap_check_async / coap_async_trigger / coap_async_set_delay / coap_free_async on the "
             "virtual clock against the model, event by event (transmissions, handler calls, the entry list with the stored "
             "request, session reference counts, the reported wait), plus an oracle that reads the property off the "
             "implementation's own report.",
-    "note": "Deferred responses: the session reference balance (one reference per entry, no entry of a freed session) is "
-            "checked on every run by the oracle and against the model but not yet proved for all sequences; a delayed invocation "
+    "note": "Deferred responses: session close by the application / context teardown are not events of the async machine "
+            "(C12 covers them); a delayed invocation "
             "whose handler sets no code (D13), requests with an Observe option and the proxy-URI resource are outside the "
             "async machine's scope. Partial: proxy forwarding itself (coap_proxy.c) is outside the model — the proxy resource's handler is treated as an "
             "application handler (Empty ACK + separate CON response), coap_split_proxy_uri is an oracle; handler verdicts of 5.08, "
@@ -455,8 +462,11 @@ def gen_async(rng):
             evs.append("io %d %s" % (rng.choice(ASQ_DTS), asq_verdict(rng)))
         elif c < 0.87:
             evs.append("tr %d" % rng.choice([0, 0, 1, 2]))
-        elif c < 0.94:
+        elif c < 0.93:
             evs.append("sd %d %d" % (rng.choice([0, 0, 1, 2]), rng.choice(ASQ_DELAYS)))
+        elif c < 0.96 and res:
+            # coap_delete_resource between the two passes of a deferred request
+            evs.append("dr %d" % rng.randrange(len(res) + (rng.random() < 0.1)))
         else:
             evs.append("fr %d" % rng.choice([0, 0, 1, 2]))
     if rng.random() < 0.7:
@@ -468,7 +478,7 @@ def asq_events(line):
     """the events of an `asq` line: (kind, words)"""
     w = line.split()[8:]
     out, i = [], 0
-    size = {"rx": 5, "io": 3, "tr": 2, "sd": 3, "fr": 2}
+    size = {"rx": 5, "io": 3, "tr": 2, "sd": 3, "fr": 2, "dr": 2}
     while i < len(w):
         k = size.get(w[i])
         if not k or i + k > len(w):
@@ -504,6 +514,16 @@ def judge_async_spec(line, impl):
         return None
     outs = impl.split(SEP)
     now, prev, prevraw, fired, regcall, regdg = 1000, [], "-", set(), {}, {}
+    # the ordinary resources of the table as it is now, by their position in the line (`dr` deletes; the harness names a
+    # handler r<i> by the resource's CURRENT position)
+    w6 = line.split()[6]
+    cur = list(range(0 if w6 == "-" else len(w6.split(";"))))
+
+    def orig(call):
+        name, _, rest = call.partition(":")
+        if name[:1] == "r" and name[1:].isdigit():
+            return ("R%d" % cur[int(name[1:])] if int(name[1:]) < len(cur) else "R?") + ":" + rest
+        return call
     for k, ((kind, w), o) in enumerate(zip(evs, outs)):
         m = ASQ_RE.match(o)
         if not m:
@@ -518,6 +538,13 @@ def judge_async_spec(line, impl):
         calls = [] if h == "-" else h.split("/")
         if kind == "io":
             now += int(w[0])
+        if kind == "dr":
+            if int(w[0]) < len(cur):
+                del cur[int(w[0])]
+            if calls or tx != "-":
+                return ("spec", where + "coap_delete_resource made the server act: " + short(o))
+        if any(orig(c_.rpartition(">")[2]).startswith("R?:") for c_ in calls):
+            return ("spec", where + "a handler of a resource that is not in the table ran: " + h)
         # at most one entry per (session, token)
         keys = [(e["peer"], e["tok"]) for e in ents]
         if len(set(keys)) != len(keys) or len(set(e["id"] for e in ents)) != len(ents):
@@ -539,6 +566,7 @@ def judge_async_spec(line, impl):
                 continue
             rid, call = c[2:].split(">", 1)
             rid = int(rid)
+            call = orig(call)
             e = next((x for x in prev if x["id"] == rid), None)
             if e is None or rid in fired:
                 return ("spec", where + "entry %d handed to the application although it is not registered (any more)" % rid)
@@ -551,8 +579,24 @@ def judge_async_spec(line, impl):
             if len(f) != 6 or (f[1], f[4], f[5]) != (e["code"], e["opts"], e["pl"]):
                 return ("spec", where + "entry %d: the application is handed %s, the stored request is %s" % (rid, call, e["raw"]))
             if rid in regcall and regcall[rid] != call:
-                return ("spec", where + "entry %d: deferred by %s, handed over again as %s" % (rid, regcall[rid], call))
+                gone = regcall[rid][:1] == "R" and int(regcall[rid].split(":")[0][1:]) not in cur
+                # the resource was deleted in between: only the unknown-resource handler may get the stored request
+                if not (gone and call.startswith("unk:") and call.split(":")[1:] == regcall[rid].split(":")[1:]):
+                    return ("spec", where + "entry %d: deferred by %s, handed over again as %s" % (rid, regcall[rid], call))
+        for e in due:
+            # whatever answers a deferred request is a separate response (RFC 7252 5.2.2): never an ACK — its message id
+            # is the stored copy's, which acknowledges nothing the client sent
+            for t_ in ([] if tx == "-" else tx.split("/")):
+                f = t_.split(":")
+                if len(f) == 6 and f[0] == "A" and f[1] != "0" and f[2] == str(e["mid"]) and f[3] == e["tok"]:
+                    return ("spec", where + "entry %d answered by an ACK with the copy's message id %d: %s" % (e["id"], e["mid"], t_))
         for rid in dueids:
+            if rid not in seen and rid in regcall and regcall[rid][:1] == "R" and int(regcall[rid].split(":")[0][1:]) not in cur:
+                # its resource was deleted in between and no unknown-resource handler took it: answered by the library
+                if any(e["id"] == rid for e in ents):
+                    return ("spec", where + "entry %d is still registered after its time" % rid)
+                fired.add(rid)
+                continue
             if rid not in seen:
                 return ("spec", where + "entry %d is due (time %d, now %d) and was not handed to the application" % (
                     rid, next(x["delay"] for x in prev if x["id"] == rid), now))
@@ -577,7 +621,7 @@ def judge_async_spec(line, impl):
                 own = [c for c in calls if not c.startswith("re")]
                 if len(own) != 1 or w[1] == "r":
                     return ("spec", where + "entry %d registered without a deferring handler call: %s" % (e["id"], short(o)))
-                regcall[e["id"]] = own[0]
+                regcall[e["id"]] = orig(own[0])
                 regdg[e["id"]] = key
         elif any(not any(x["id"] == e["id"] for x in prev) for e in ents):
             return ("spec", where + "an entry appeared without a request: " + a)
@@ -970,7 +1014,12 @@ REQUIRED_THEOREMS = ["decision_eq_spec", "at_most_one_reply", "reply_echoes_toke
                      "pending_of_others_irrelevant", "deferred_retransmission_acked", "history_changes_only_by_ack_again",
                      "reply_shape_any_history", "async_fires_exactly_the_due", "async_fired_were_registered",
                      "async_wait_le_earliest_deadline", "async_one_entry_per_session_token",
-                     "async_retransmission_no_second_entry", "async_retransmission_acked_only"]
+                     "async_retransmission_no_second_entry", "async_retransmission_acked_only",
+                     "async_refs_balanced", "async_no_entry_of_freed_session", "async_pending_session_not_reclaimed",
+                     "async_balance_inductive", "async_second_pass_same_handler",
+                     "async_second_pass_handler_of_current_table", "async_deleted_resource_handler_never_runs",
+                     "async_registered_entry_second_pass", "async_wait_of_untriggered_entry_witness",
+                     "async_second_pass_error_is_separate_response", "async_changing_table"]
 RULE = ("one line = one fresh server context + one request datagram: resource tables (0-4 ordinary resources from a pool of paths incl. "
         "'', '.well-known/core', percent-escaped and empty segments; per-method handler masks; observable; all multicast flag "
         "combinations; OSCORE-only; unknown-resource handler with/without HANDLE_WELLKNOWN_CORE; proxy resource with host name), "
@@ -987,7 +1036,8 @@ RULE = ("one line = one fresh server context + one request datagram: resource ta
         "+ n/5 `asq` lines = one server context, 3-11 events: request datagrams from up to 3 peers whose handler defers "
         "(coap_register_async with delay 0/1/10/100/500/1000/2500 ticks) or answers, retransmissions (same bytes, fresh "
         "message id, other peer), virtual time steps 0-5000 ticks, coap_async_trigger / coap_async_set_delay / "
-        "coap_free_async on the k-th entry, session idle timeout 1-3 s, Hop-Limit and No-Response options; "
+        "coap_free_async on the k-th entry, coap_delete_resource on the k-th resource (between the two passes of a deferred "
+        "request), session idle timeout 1-3 s, Hop-Limit and No-Response options; "
         "non-trivial = distinct line on which the model prescribes a reply or a handler call")
 TRUSTED_BASE = ["Lean 4.33 kernel; axioms allowed: propext, Classical.choice, Quot.sound (audited per theorem each run)",
                 "T1 extractor extract/server.c (evaluation of coap_option_check_critical, coap_option_check_repeatable, "
